@@ -349,8 +349,9 @@ Fixpoint upd {A} (i : nat) (x : A) (l : list A) : list A :=
 
 Definition wst_eqb a b := match a, b with WInit, WInit | WCalled, WCalled | WSent, WSent => true | _, _ => false end.
 
-(* [outs] = the results of the invocations (environment); capacity of the channel = length outs *)
-Definition p_step (outs : list pres) (s : pstate) (l : plabel) : option pstate :=
+(* [outs] = the results of the invocations (environment); capacity of the channel = length outs;
+   [keep] = a result type was given (:31 keepReturn) *)
+Definition p_step (keep : bool) (outs : list pres) (s : pstate) (l : plabel) : option pstate :=
   let '(mkP w ch m sl rc) := s in
   match l with
   | PCall i =>     (* :38-40  r.Item, r.err = actionFunc(v.Interface()) *)
@@ -368,7 +369,7 @@ Definition p_step (outs : list pres) (s : pstate) (l : plabel) : option pstate :
           if k <? length outs then
             match r with
             | PFail e => Some (mkP w ch' (MDone (PRErr e)) sl (S rc))
-            | PItem z => Some (mkP w ch' (MLoop (S k) (acc ++ [z])) sl (S rc))
+            | PItem z => Some (mkP w ch' (MLoop (S k) (if keep then acc ++ [z] else acc)) sl (S rc))
             end
           else None
       | _, _ => None end
@@ -387,36 +388,35 @@ Definition p_final (s : pstate) : Prop :=
   Forall (fun st => st = WSent) (p_w s) /\ exists r, p_main s = MDone r.
 
 (* what the property allows Parallelise to return, given the invocations' results *)
-Definition par_allowed (outs : list pres) (r : pret) : Prop :=
+Definition par_allowed (keep : bool) (outs : list pres) (r : pret) : Prop :=
   match r with
-  | PROk items => fails_of outs = [] /\ Permutation items (items_of outs)
+  | PROk items => fails_of outs = [] /\ if keep then Permutation items (items_of outs) else items = []
   | PRErr e => In e (fails_of outs)
   end.
 
-(* executable version for the correspondence: sorted comparison *)
-Fixpoint insertZ (x : Z) (l : list Z) : list Z :=
-  match l with [] => [x] | y :: r => if (x <=? y)%Z then x :: l else y :: insertZ x r end.
-Definition sortZ (l : list Z) : list Z := fold_right insertZ [] l.
-Fixpoint listZ_eqb (a b : list Z) : bool :=
-  match a, b with [], [] => true | x :: a', y :: b' => (x =? y)%Z && listZ_eqb a' b' | _, _ => false end.
-Definition par_allowedb (outs : list pres) (r : pret) : bool :=
+(* executable version for the correspondence: equal multiplicities (complete w.r.t. [par_allowed]: ProofsP.par_allowedb_complete) *)
+Definition same_multiset (a b : list Z) : bool :=
+  forallb (fun x => count_occ Z.eq_dec a x =? count_occ Z.eq_dec b x) (a ++ b).
+Definition par_allowedb (keep : bool) (outs : list pres) (r : pret) : bool :=
   match r with
-  | PROk items => match fails_of outs with [] => listZ_eqb (sortZ items) (sortZ (items_of outs)) | _ => false end
+  | PROk items => match fails_of outs with
+                  | [] => if keep then same_multiset items (items_of outs) else match items with [] => true | _ => false end
+                  | _ => false end
   | PRErr e => existsb (Z.eqb e) (fails_of outs)
   end.
 
 (* ===================================================================================================== *)
 (** * CancelFunctionStore (cancel_functions.go:14-37) *)
 
-Inductive sop := SReg (f : nat) | SCancel | SLen.
+Inductive sop := SReg (fs : list nat) | SCancel | SLen.     (* RegisterCancelFunction(fs...) is variadic *)
 
 (* program counter of one goroutine inside one call *)
 Inductive spc :=
   | SIdle
-  | SRegWant (f : nat)                       (* :21 s.mu.Lock() pending *)
-  | SRegRead (f : nat)                       (* holds the write lock, about to read s.cancelFunctions (:22) *)
-  | SRegWrite (f : nat) (seen : list nat)    (* has read the slice, about to store append(seen, f) *)
-  | SRegUnlock (f : nat)                     (* :20 deferred Unlock *)
+  | SRegWant (fs : list nat)                       (* :21 s.mu.Lock() pending *)
+  | SRegRead (fs : list nat)                       (* holds the write lock, about to read s.cancelFunctions (:22) *)
+  | SRegWrite (fs : list nat) (seen : list nat)    (* has read the slice, about to store append(seen, fs...) *)
+  | SRegUnlock (fs : list nat)                     (* :20 deferred Unlock *)
   | SCanWant                                 (* Cancel() called; :27 s.mu.RLock() pending *)
   | SCanLoop (todo : list nat)               (* holds the read lock; :28-30 remaining functions of the range *)
   | SLenWant
@@ -456,9 +456,9 @@ Definition th_step (s : sstate) (th : thread) : option (sstate * thread) :=
       end
   | SRegWant f => if negb wr && (rd =? 0) then Some (mkS fns true rd ths rdn cs, mkTh ops (SRegRead f) must called outs) else None
   | SRegRead f => Some (s, mkTh ops (SRegWrite f fns) must called outs)
-  | SRegWrite f seen => Some (mkS (seen ++ [f]) wr rd ths rdn cs, mkTh ops (SRegUnlock f) must called outs)
+  | SRegWrite f seen => Some (mkS (seen ++ f) wr rd ths rdn cs, mkTh ops (SRegUnlock f) must called outs)
   | SRegUnlock f => (* Unlock and return: from here on Register(f) "has completed" *)
-      Some (mkS fns false rd ths (f :: rdn) cs, mkTh ops SIdle must called ([] :: outs))
+      Some (mkS fns false rd ths (f ++ rdn) cs, mkTh ops SIdle must called ([] :: outs))
   | SCanWant => if negb wr then Some (mkS fns wr (S rd) ths rdn cs, mkTh ops (SCanLoop fns) must called outs) else None
   | SCanLoop (f :: todo) => Some (s, mkTh ops (SCanLoop todo) must (called ++ [f]) outs)
   | SCanLoop [] => Some (mkS fns wr (pred rd) ths rdn ((must, called) :: cs), mkTh ops SIdle [] [] (called :: outs))
@@ -535,7 +535,7 @@ Definition opt_eqb {A} (e : A -> A -> bool) (a b : option A) : bool :=
 Inductive case :=
   | CaseT (c : acfg) (o : option tobs)     (* RunActionWithTimeout: scenario class; observation (None: did not return) *)
   | CaseX (c : xcfg) (o : option xobs)     (* ...AndContext / ...AndCancelStore *)
-  | CaseP (outs : list pres) (calls : list nat) (r : pret)   (* Parallelise: invocation results, invocations counted per argument, returned *)
+  | CaseP (keep : bool) (outs : list pres) (calls : list nat) (r : pret)   (* Parallelise: result type given?, invocation results, invocations counted per argument, returned *)
   | CaseS (prog : list sop) (outs : list (list nat)).        (* store driven by one goroutine: result of every call, in order *)
 
 Fixpoint listnat_eqb (a b : list nat) : bool :=
@@ -543,14 +543,18 @@ Fixpoint listnat_eqb (a b : list nat) : bool :=
 Fixpoint listlistnat_eqb (a b : list (list nat)) : bool :=
   match a, b with [], [] => true | x :: a', y :: b' => listnat_eqb x y && listlistnat_eqb a' b' | _, _ => false end.
 
+Fixpoint insertN (x : nat) (l : list nat) : list nat :=
+  match l with [] => [x] | y :: r => if x <=? y then x :: l else y :: insertN x r end.
+Definition sortN (l : list nat) : list nat := fold_right insertN [] l.
+
 Definition check_case (k : case) : bool :=
   match k with
   | CaseT c o => existsb (opt_eqb tobs_eqb o) (t_allowed true c)
   | CaseX c o => existsb (opt_eqb xobs_eqb o) (x_allowed c)
-  | CaseP outs calls r => listnat_eqb calls (map (fun _ => 1) outs) && par_allowedb outs r
+  | CaseP keep outs calls r => listnat_eqb calls (map (fun _ => 1) outs) && par_allowedb keep outs r
   | CaseS prog outs =>
       let s := s_run1 (10 + 6 * length prog + 4 * length prog * length prog) (s_init [prog]) in
       match s_threads s with
-      | [th] => listlistnat_eqb (rev (th_outs th)) outs
+      | [th] => listlistnat_eqb (map sortN (rev (th_outs th))) outs     (* order of invocation: not compared *)
       | _ => false end
   end.
